@@ -42,6 +42,10 @@ def showEv : HEv → String
 def spawnRule : Spawn := fun key cb val =>
   if cb % 10 == 9 && val % 4 != 3 then some (key, 1, val + 1) else none
 
+/-- the stand-alone HeterCallbackList of the harness is event key 7 of the model; a callback of it whose id ends in
+    8 assigns an empty list to it while it runs (same as `harnessClear` in Properties/C14s.lean) -/
+def clearRule : Clear := fun key cb => key == 7 && cb % 10 == 8
+
 def main (lines : Array String) : IO Unit := do
   let out ← IO.getStdout
   let mut m : Mat := {}
@@ -79,6 +83,8 @@ def main (lines : Array String) : IO Unit := do
       let sg := m.sig
       let op : Option HOp := match rest with
         | ["hlisten", k, kind, cb] => some (.listen (nat! k) (nat! kind) (nat! cb))
+        | ["hlappend", kind, cb] => some (.listen 7 (nat! kind) (nat! cb))
+        | ["hlinvoke", kind, v] => some (.dispatch 7 (nat! kind) (if nat! kind = 0 then 0 else nat! v))
         | ["hremove", k, h] =>
           (match protoOf.find? (fun p => p.1 == nat! h) with
           | some p => some (.remove (nat! k) (nat! h) p.2)
@@ -112,7 +118,7 @@ def main (lines : Array String) : IO Unit := do
           | some p => protoOf := protoOf ++ [(w.nextId, p)]
           | none => pure ()
         | _ => pure ()
-        let (w', evs) := stepS sg spawnRule w op
+        let (w', evs) := stepC sg spawnRule clearRule w op
         let flat := (step sg w op).1
         w := w'
         for e in evs do out.putStrLn (showEv e)
